@@ -676,6 +676,40 @@ func c10Gen(rt *rapid.T) c10Case {
 	return c
 }
 
+// multihomed: no rpc-address is configured and the proxy is reachable through several addresses; each client is
+// told the address it reached the proxy on (and the host id derived from it), whatever other clients were told before.
+type c10Multi struct {
+	Via []int `json:"clients_via_127_0_0_x"`
+	DSE bool  `json:"dse,omitempty"`
+}
+
+func c10MultiCheck(c c10Multi) *evid.Fail {
+	e, err := startEnv(envOpts{Hosts: 1, NumConns: 1, Keyspaces: []string{"ks1"}, ListenAny: true, DSE: map[bool]string{true: "6.8.0", false: ""}[c.DSE]})
+	if err != nil {
+		return evid.Failf("harness-env", "%v", err)
+	}
+	defer e.Close()
+	for i, x := range c.Via {
+		ip := fmt.Sprintf("127.0.0.%d", x)
+		cl, err := e.clientVia(ip, 4, "")
+		if err != nil {
+			return evid.Failf("harness-client", "%v", err)
+		}
+		r := &runner{e: e, c: cl, v: 4, stream: 100, prepared: map[string][]byte{}}
+		ring, f := c10ReadRing(r, 4, c.DSE)
+		if f != nil {
+			return f
+		}
+		if len(ring) != 1 {
+			return evid.Failf("ring-size", "client %d (via %s): %d nodes presented, no peers are configured", i, ip, len(ring))
+		}
+		if ring[0].Addr != ip || ring[0].HostID != modelHostID(ip) {
+			return evid.Failf("row-value:local:multihomed", "client %d reached the proxy on %s (clients before it: %v) but system.local says rpc_address %s host_id %s (want %s)", i, ip, c.Via[:i], ring[0].Addr, ring[0].HostID, modelHostID(ip))
+		}
+	}
+	return nil
+}
+
 func TestC10(t *testing.T) {
 	rec := evid.New("C10", "exploration",
 		"peer lists of 0..16 IPv4/IPv6 addresses (alternative textual spellings of IPv6, with/without the proxy's own entry, data centers none/all/some explicit, tokens explicit or computed), every member started in turn as 'self' against one fake backend (DSE or not, generated version strings and local DC); per proxy generated selector lists over the advertised columns (subsets/order/repetition, aliases, *, count(*), count(col), now()) as QUERY and PREPARE+EXECUTE with the table spelled in case/quote variants; "+
@@ -685,6 +719,13 @@ func TestC10(t *testing.T) {
 	rec.SetJournalAll(true)
 	rec.Assume("only valid configurations (invalid ones are C20's business); no IPv6 zones; IPv4-mapped IPv6 spellings are not generated",
 		"row count of aggregate-only reads and behaviour with WHERE are not asserted (property is silent)")
+	runProp(t, rec, "multihomed", perShard(evid.Pick(60, 3000)), func(rt *rapid.T) c10Multi {
+		c := c10Multi{Via: rapid.SliceOfN(rapid.IntRange(1, 4), 2, 6).Draw(rt, "via"), DSE: rapid.Bool().Draw(rt, "dse")}
+		rec.Case("multi:"+js(c), "multihomed-no-rpc-address")
+		rec.Sample(c)
+		return c
+	}, c10MultiCheck)
+
 	runProp(t, rec, "ring", perShard(evid.Pick(8000, 200000)), func(rt *rapid.T) c10Case {
 		c := c10Gen(rt)
 		labels := []string{fmt.Sprintf("nodes:%d", len(c.Nodes)), fmt.Sprintf("self-in-list:%v", c.SelfInList), fmt.Sprintf("explicit-tokens:%v", c.explicitTokens()), map[bool]string{true: "backend:dse", false: "backend:oss"}[c.DSE != ""]}
